@@ -203,6 +203,23 @@ func c11Representations(c *core.Ctx, r *core.RNG, ic idCodec) {
 	if got, err := ic.unmarshalBin(rev); err != nil || !bytes.Equal(got, b) {
 		bad("binary-unmarshal", "UnmarshalBinary(%x)=%x err=%v", rev, got, err)
 	}
+	// the buffers handed to the decoders stay the caller's: unchanged, and decoding them again gives the same value
+	{
+		in := append([]byte{}, rev...)
+		ic.unmarshalBin(in)
+		after1 := append([]byte{}, in...)
+		got2, err2 := ic.unmarshalBin(in)
+		if !bytes.Equal(after1, rev) || !bytes.Equal(in, rev) || err2 != nil || !bytes.Equal(got2, b) {
+			bad("binary-unmarshal-input-changed", "UnmarshalBinary changed its input %x -> %x (second decode %x err=%v)", rev, in, got2, err2)
+		}
+		sc := append([]byte{}, b...)
+		ic.scan(sc)
+		after1 = append([]byte{}, sc...)
+		got3, err3 := ic.scan(sc)
+		if !bytes.Equal(after1, b) || !bytes.Equal(sc, b) || err3 != nil || !bytes.Equal(got3, b) {
+			bad("scan-input-changed", "Scan changed its source %x -> %x (second Scan %x err=%v)", b, sc, got3, err3)
+		}
+	}
 	// database
 	v, err := ic.value(b)
 	vb, ok := v.([]byte)
@@ -229,6 +246,21 @@ func c11Representations(c *core.Ctx, r *core.RNG, ic idCodec) {
 		}
 		if _, err := ic.scan(x); err == nil {
 			bad(fmt.Sprintf("scan-wrong-length-accepted|len=%d", ln), "Scan accepted %d bytes", ln)
+		}
+		// wrong-length byte strings that look like something: ASCII hex digits (the text form handed
+		// over as bytes), zeros, ones
+		ascii := []byte(hex.EncodeToString(r.Bytes(ln)))[:ln]
+		if ln == 2*ic.size {
+			ascii = []byte(hex.EncodeToString(b))
+		}
+		for _, y := range [][]byte{ascii, make([]byte, ln), bytes.Repeat([]byte{0xff}, ln), bytes.Repeat([]byte{'0'}, ln)} {
+			c.Eval(2)
+			if got, err := ic.unmarshalBin(append([]byte{}, y...)); err == nil {
+				bad(fmt.Sprintf("binary-wrong-length-accepted|len=%d", ln), "UnmarshalBinary accepted %d bytes %q as %x", ln, y, got)
+			}
+			if got, err := ic.scan(append([]byte{}, y...)); err == nil {
+				bad(fmt.Sprintf("scan-wrong-length-accepted|len=%d", ln), "Scan accepted %d bytes %q as %x", ln, y, got)
+			}
 		}
 		c.Shape("repr-len", ic.name, ln)
 	}
